@@ -158,6 +158,45 @@ theorem path_join_fmt_eq_spec (s p : List Nat) (hs : WFU s) (hp : 0 ∉ p) :
   obtain ⟨cs, rfl, h1⟩ := (wfu_iff s).1 hs
   simpa using pathJoinFmt_eq cs p h1 hp
 
+/-! ## `fmt::Arguments` shapes (literal format strings / run-time arguments) -/
+
+/-- the rendering of every shape is NUL-free when its pieces are -/
+theorem render_nulfree (sh : FmtShape) (l x y : List Nat) (hl : 0 ∉ l) (hx : 0 ∉ x) (hy : 0 ∉ y) :
+    0 ∉ render sh l x y := by
+  cases sh <;> simp [render, hl, hx, hy]
+
+/-- **path_join_fmt, every `Arguments` shape**: whether the extension is a literal format string, a
+literal around one or two run-time arguments or arguments only, the result is the byte-string join
+of the base with the RENDERED bytes -/
+theorem path_join_fmt_args_eq_spec (s : List Nat) (sh : FmtShape) (l x y : List Nat) (hs : WFU s)
+    (hl : 0 ∉ l) (hx : 0 ∉ x) (hy : 0 ∉ y) :
+    pathJoinFmtArgs s sh l x y = .ok (joinSpec (content s) (render sh l x y) ++ [0]) :=
+  path_join_fmt_eq_spec s _ hs (render_nulfree sh l x y hl hx hy)
+
+/-- **shape independence**: two `Arguments` that render to the same bytes give the same path, for
+every base (well-formed or not, NULs or not) — in particular the literal `format_args!("there")` and
+the run-time `format_args!("{}", "there")` cannot differ -/
+theorem path_join_fmt_shape_independent (s : List Nat) (sh sh' : FmtShape) (l x y l' x' y' : List Nat)
+    (h : render sh l x y = render sh' l' x' y') :
+    pathJoinFmtArgs s sh l x y = pathJoinFmtArgs s sh' l' x' y' := by
+  simp only [pathJoinFmtArgs, h]
+
+/-- a literal-only extension is the `{}`-argument extension with the same text -/
+theorem path_join_fmt_literal_eq_argument (s p : List Nat) :
+    pathJoinFmtArgs s .lit p [] [] = pathJoinFmtArgs s .arg [] p [] ∧
+    pathJoinFmtArgs s .lit p [] [] = pathJoinFmt s p :=
+  ⟨rfl, rfl⟩
+
+/-- **empty base**: joining the empty path with any non-empty NUL-free extension — of ANY shape — is
+the extension itself, no separator appears (a relative path stays relative) -/
+theorem path_join_fmt_args_empty_base (sh : FmtShape) (l x y : List Nat)
+    (hl : 0 ∉ l) (hx : 0 ∉ x) (hy : 0 ∉ y) :
+    pathJoinFmtArgs [0] sh l x y = .ok (render sh l x y ++ [0]) := by
+  have h := path_join_fmt_args_eq_spec [0] sh l x y (wfu_snoc (c := []) (by simp)) hl hx hy
+  rw [h]
+  have hc : content [0] = [] := by simp [content]
+  by_cases hr : render sh l x y = [] <;> simp [joinSpec, hc, hr]
+
 /-- **parent_path** splits at the last separator (documented `None` cases in `parentSpec`) -/
 theorem parent_eq_spec (s : List Nat) (hs : WFU s) :
     parentPath s = .ok ((parentSpec (content s)).map (· ++ [0])) := by
@@ -251,6 +290,12 @@ example : joinSpec [97, 47, 47] [47, 98] = [97, 47, 47, 98] := by decide
 example : parentSpec [47, 97] = some [47] := by decide
 example : parentSpec [97, 47, 47, 98] = none := by decide
 example : fileNameSpec [97, 47] = none := by decide
+/-- `UnixStr::EMPTY.path_join_fmt(format_args!("there"))` is `there`, in every shape that renders `there` -/
+example : pathJoinFmtArgs [0] .lit [116, 104, 101, 114, 101] [] [] = .ok [116, 104, 101, 114, 101, 0] := by decide
+example : pathJoinFmtArgs [0] .arg [] [116, 104, 101, 114, 101] [] = .ok [116, 104, 101, 114, 101, 0] := by decide
+example : pathJoinFmtArgs [0] .argLitArg [104, 101] [116] [114, 101] = .ok [116, 104, 101, 114, 101, 0] := by decide
+example : pathJoinFmtArgs [97, 47, 0] .litArg [47] [98] [] = .ok [97, 47, 98, 0] := by decide
+example : render .litArgLit [47] [97] [] = [47, 97, 47] := by decide
 /-- beyond the short range: `/tmp/<255-byte name>` and a 4096-byte component -/
 example : pathFileName ([47, 116, 109, 112] ++ 47 :: List.replicate 255 120 ++ [0]) = .ok (some (List.replicate 255 120 ++ [0])) :=
   file_name_any_component_length _ _ (not_mem_replicate _ (by decide)) (replicate_ne_nil _ (by decide))
